@@ -84,6 +84,7 @@ def run_reflection(case):
       f = sum((Q(v) * z ** -i for i, v in enumerate(a)), 0 * z)
     got = []
     err = None
+    before = ({k: fr(v) for k, v in f.numpoly.terms()}, {k: fr(v) for k, v in f.denpoly.terms()})
     try:
       for k in parcor(f):
         got.append(fr(k))
@@ -91,6 +92,19 @@ def run_reflection(case):
       err = "ParCorError"
     except Exception as exc:
       return bad("parcor:exception:" + type(exc).__name__, "parcor raised", exp, str(exc)[:200], nt)
+    after = ({k: fr(v) for k, v in f.numpoly.terms()}, {k: fr(v) for k, v in f.denpoly.terms()})
+    if after != before:
+      return bad("parcor:mutates-argument", "parcor must leave the filter it analyses unchanged "
+                 "(the filter is rebuilt / reused afterwards)", before[0], after[0], nt)
+    again, err2 = [], None
+    try:
+      for k in parcor(f):
+        again.append(fr(k))
+    except ParCorError:
+      err2 = "ParCorError"
+    if (again, err2) != (got, err):
+      return bad("parcor:second-call", "a second parcor of the same filter object must give the same coefficients",
+                 {"k": got, "then": err}, {"k": again, "then": err2}, nt)
     if hits:
       # coefficients down to (and including) the first |k| = 1 are produced, then ParCorError
       m = hits[0]
